@@ -56,15 +56,24 @@ def run(ctx):
     cp = main[0]
     tgt, src = norm(cp.targets[0]), norm(cp.value.args[0])
     sibs = _ancestors(cp, cv.node)[0].body if hasattr(_ancestors(cp, cv.node)[0], "body") else []
-    text = [norm(s) for s in sibs]
-    ctx.check(f"o_map[{src}] = {tgt}" in text, "REFS", "copied object entered in o_map", func=cv, node=cp, construct="o_map-entry",
-              msg=f"after `{norm(cp)}` the correspondence o_map[{src}] = {tgt} must be recorded, otherwise references to `{src}` are not redirected")
-    ctx.check(f"o_new.add({tgt})" in text, "REFS", "copy scheduled for reference replacement", func=cv, node=cp, construct="o_new-entry",
-              msg=f"`{tgt}` must be added to o_new so that its own references are replaced")
-    repl = [n for n in own_nodes(cv.node) if isinstance(n, ast.For) and norm(n.iter) == "o_new"
-            and any(isinstance(c, ast.Call) and norm(c.func).endswith(".replace_refs") and [norm(a) for a in c.args] == ["o_map"] for c in ast.walk(n))]
+    # the object map and the set of new objects, found by role: M[src] = tgt and S.add(tgt) next to the copy
+    maps = [norm(st.targets[0].value) for st in sibs if isinstance(st, ast.Assign) and isinstance(st.targets[0], ast.Subscript)
+            and norm(st.targets[0].slice) == src and norm(st.value) == tgt]
+    news = [norm(st.value.func.value) for st in sibs if isinstance(st, ast.Expr) and isinstance(st.value, ast.Call) and isinstance(st.value.func, ast.Attribute)
+            and st.value.func.attr in ("add", "append") and [norm(a) for a in st.value.args] == [tgt]
+            and not norm(st.value.func).startswith(("tp", "part"))]
+    news = [n for n in news if any(isinstance(a, ast.Assign) and norm(a.targets[0]) == n and isinstance(a.value, (ast.Call, ast.Set, ast.List))
+                                   for a in own_nodes(cv.node))]
+    ctx.check(len(maps) == 1, "REFS", "copied object entered in o_map", func=cv, node=cp, construct="o_map-entry",
+              msg=f"after `{norm(cp)}` the correspondence <map>[{src}] = {tgt} must be recorded, otherwise references to `{src}` are not redirected")
+    ctx.check(len(news) == 1, "REFS", "copy scheduled for reference replacement", func=cv, node=cp, construct="o_new-entry",
+              msg=f"`{tgt}` must be added to the collection of new objects so that its own references are replaced")
+    omap = maps[0] if maps else "o_map"
+    onew = news[0] if news else "o_new"
+    repl = [n for n in own_nodes(cv.node) if isinstance(n, ast.For) and norm(n.iter) == onew
+            and any(isinstance(c, ast.Call) and norm(c.func).endswith(".replace_refs") and [norm(a) for a in c.args] == [omap] for c in ast.walk(n))]
     ctx.check(len(repl) == 1, "REFS", "replace_refs(o_map) applied to every new object", func=cv, construct="replace_refs-loop",
-              msg="every copied object must have replace_refs(o_map) applied: references between copied objects must stay inside the copy")
+              msg="every copied object must have replace_refs(<map>) applied: references between copied objects must stay inside the copy")
     # registration of reference attributes
     to = prog.cls(f"{S}:TimedObject", "REFS")
     found = set()
